@@ -175,6 +175,11 @@ def seeded_scenarios(tier, rng, grid=True):
                         prod=rng.choice(["prefill", "eager", "trickle", "stallburst", "stallburst", "free"]),
                         cons=rng.choice(["ready", "ready", "slow", "stall", "free"]),
                         gap=rng.randrange(1, 2 * i + 2), cgap=rng.randrange(1, 2 * i + 2), close_delay=-1, src="profile"))
+    # huge quantities (valid rates used as "no limit": 2^63, 2^64-1); reported to the monitor as q = 100000 > any element count
+    for qh in (1, 2):
+        for n in (0, 1, 5):
+            for cap in (0, 3):
+                scs.append(dict(kind="random", q=100000, qhuge=qh, i=3, cap=cap, n=n, units=8, prod="eager", cons="ready", close_delay=1, src="hugeq"))
     # long traces: >= 40 intervals (an interval that is 10 % too short only shows after many intervals)
     for k in range(12 if quick else 96):
         q = rng.choice([1, 2, 3, 4])
@@ -205,7 +210,15 @@ def record(sc, binary, scs):
         json.dump(scs, f)
     rc, out, wall = run_test(binary, "TestRecordLimit$", env=dict(LIMIT_SCEN=os.path.join(sc, "limit_scen.json"), OUT_DIR=sc), timeout=1500)
     m = re.search(r"RECORDED traces=(\d+) events=(\d+) skipped=(\d+)", out)
-    if rc != 0 or not m or races_in(out):
+    tf = os.path.join(sc, "limit_trace.ndjson")
+    stuck = (rc != 0 and not m and "blocked goroutines remain" in out and "limit.(*Discipline" in out
+             and os.path.exists(tf) and os.path.getsize(tf) > 0 and not races_in(out))
+    if stuck:
+        # the discipline's goroutine never ended, so the bubble could not be left: every trace recorded so far, including the
+        # offending one (flushed from inside the bubble), is still judged by the monitor
+        log("limit recorder ended early: a goroutine of the discipline never terminates; judging the %d bytes recorded" % os.path.getsize(tf))
+        m = re.match(r"(\d+) (\d+) (\d+)", "%d 0 0" % len(scs))
+    elif rc != 0 or not m or races_in(out):
         raise Inconclusive("limit recorder failed (rc=%s, races=%d)\n%s" % (rc, races_in(out), out[-3000:]))
     if int(m.group(1)) != len(scs):
         raise Inconclusive("limit recorder: trace count mismatch")
